@@ -1130,6 +1130,15 @@ func (c *c15) opInvite() {
 	}
 	target := c.ju
 	sh := joinShape{typ: spec.MRoomMember, sender: inviter, stateKey: world.Str(target.id), roomID: rm.roomID, content: map[string]any{"membership": "invite"}, signer: rm.R(), key: rm.R().Current(), ts: timeNow()}
+	if t.Chance(150) {
+		// not a fault: the inviter is a user of the invited user's own server
+		// (the invite reaches it over federation all the same, relayed by a
+		// resident); the server that has to have signed it is then the very
+		// server that is about to counter-sign it
+		inviter = rm.users[5-indexOf(rm.users, target)]
+		sh.sender, sh.signer, sh.key = inviter, rm.J(), rm.J().Current()
+		r.Probe("invite_by_user_of_the_invited_server")
+	}
 	q := &inviteQ{c: c, known: t.Chance(400), mem: rm.membership(rm.tip.after, target.id)}
 	if q.mem == "join" {
 		q.known = true
@@ -1181,8 +1190,8 @@ func (c *c15) opInvite() {
 			if sigFaulted {
 				continue
 			}
-			old := rm.R().Current()
-			rm.R().Rotate(t, timeNow())
+			old := sh.signer.Current()
+			sh.signer.Rotate(t, timeNow())
 			time.Sleep(time.Duration(t.Range(1, 3600)) * time.Second)
 			sh.key, sh.ts, sigFaulted = old, timeNow(), true
 			r.Fault("key_rotate")
